@@ -374,3 +374,26 @@ func TestC11Maintenance(t *testing.T) {
 		Gen:  genC11M, Exec: execC11M,
 	})
 }
+
+// C12Restart: the histories of C11Maintenance judged for C12's lifecycle clauses across a process restart through the
+// real maintenance loops: an expiry or an in-place edit made before the shutdown must still be in force afterwards
+// (an expired silence never becomes active again under its id; an edit keeps the id and its new content).
+func TestC12Restart(t *testing.T) {
+	pbt.Run(t, pbt.Spec[c11mScenario]{
+		Property: "C12", Name: "C12Restart",
+		Rule: "the scenarios of C11Maintenance (create / extend / comment / expire / advance under the real Maintenance loops, then a clean shutdown or a kill after a quiet interval, then a start from the snapshot file). Judged here: every silence is present after the restart with exactly the end, comment and update time it had before (kinds silence-lost, silence-stale, silence-resurrected, start-refused). Non-trivial: a silence changed after a periodic snapshot had been written.",
+		Gen:  genC11M,
+		Exec: func(sc c11mScenario) pbt.Result {
+			res := execC11M(sc)
+			kept := res.Violations[:0]
+			for _, v := range res.Violations {
+				switch v.Kind {
+				case "silence-lost", "silence-stale", "silence-resurrected", "start-refused", "harness":
+					kept = append(kept, v)
+				}
+			}
+			res.Violations = kept
+			return res
+		},
+	})
+}
